@@ -9,6 +9,7 @@ import (
 
 	"github.com/gorilla/websocket"
 	"pgregory.net/rapid"
+	"verif/harness/lib/evid"
 )
 
 // WSP client (the framing of Streamedian's html5_rtsp_player proxy protocol as
@@ -110,6 +111,12 @@ func (sh *shard) wspControl(path string, cred httpCred) (*wspConn, string, error
 		c.close()
 		return nil, "", fmt.Errorf("machinery: WSP INIT: code %d headers %v err %v", code, h, err)
 	}
+	// ipchub answers INIT before it registers the session under the channel id;
+	// once a wrapped request is answered the session is registered and running
+	if st, _, err := c.rtsp("OPTIONS", sh.s.RTSP(path), nil); err != nil || st != 200 {
+		c.close()
+		return nil, "", fmt.Errorf("machinery: WSP OPTIONS: status %d err %v", st, err)
+	}
 	return c, h["channel"], nil
 }
 
@@ -185,15 +192,31 @@ func (h *hist) wspOwn(a *attempt, u int, path string) {
 		return
 	}
 	defer ctl.close()
-	data, _, err := h.sh.wspDial("data", path, cred)
-	if err != nil {
-		if allow {
-			h.fail("over-refusal-media", "wsp: %s holds the pull right on %s and the data channel handshake was refused: %v", h.names[u], path, err)
+	// ipchub answers INIT before it registers the session under the channel id
+	// (service/wsp/wsp.go handshakeControlChannel), so a JOIN sent right away may
+	// find "404 NOT FOUND" and the data channel closed: not an authorization
+	// outcome — dial again until the channel exists (bounded).
+	var data *wspConn
+	var code int
+	deadline := time.Now().Add(serveBound)
+	for {
+		data, _, err = h.sh.wspDial("data", path, cred)
+		if err != nil {
+			if allow {
+				h.fail("over-refusal-media", "wsp: %s holds the pull right on %s and the data channel handshake was refused: %v", h.names[u], path, err)
+			}
+			return
 		}
-		return
+		code, _, _, err = data.call("JOIN", map[string]string{"channel": ch}, "")
+		if err == nil && code == 404 && time.Now().Before(deadline) {
+			data.close()
+			evid.Class("wsp:join-before-session-registered")
+			time.Sleep(time.Millisecond)
+			continue
+		}
+		break
 	}
 	defer data.close()
-	code, _, _, err := data.call("JOIN", map[string]string{"channel": ch}, "")
 	o := obs{Status: code}
 	if err == nil && code == 200 {
 		rd := wspData(data)
